@@ -250,6 +250,7 @@ func runC05(c *Ctx) {
 		} else {
 			var seq []string
 			vars := map[string]types.Object{}
+			var readObjs []types.Object
 			core.InspectShallow(loop.Body, func(n ast.Node) bool {
 				as, ok := n.(*ast.AssignStmt)
 				if !ok || len(as.Rhs) != 1 {
@@ -271,11 +272,14 @@ func runC05(c *Ctx) {
 					return true
 				}
 				seq = append(seq, t)
+				var ro types.Object
 				if id, ok := as.Lhs[0].(*ast.Ident); ok {
 					if o := info.Defs[id]; o != nil {
 						vars[id.Name] = o
+						ro = o
 					}
 				}
+				readObjs = append(readObjs, ro)
 				return true
 			})
 			c.Check("C05-R2", f.Key()+" tensor loop read sequence", c.Pos(loop), strings.Join(seq, ",") == "string,uint32,uint64,uint32,uint64", "found "+strings.Join(seq, ","))
@@ -286,39 +290,48 @@ func runC05(c *Ctx) {
 				if !ok || core.ObjNameOfType(info.Types[cl].Type) != ggmlPkg+".Tensor" {
 					return true
 				}
-				got := map[string]string{}
+				got := map[string]types.Object{}
 				for _, e := range cl.Elts {
 					kv := e.(*ast.KeyValueExpr)
-					s := ""
+					var o types.Object
 					ast.Inspect(kv.Value, func(x ast.Node) bool {
-						if id, ok := x.(*ast.Ident); ok && s == "" {
-							s = id.Name
+						if id, ok := x.(*ast.Ident); ok && o == nil {
+							o = info.Uses[id]
 						}
 						return true
 					})
-					got[kv.Key.(*ast.Ident).Name] = s
+					got[kv.Key.(*ast.Ident).Name] = o
 				}
-				okLit = got["Name"] == "name" && got["Kind"] == "kind" && got["Offset"] == "offset" && got["Shape"] == "shape"
+				// reads in wire order: string (name), u32 (dims), u64 (each dim), u32 (kind), u64 (offset)
+				if len(readObjs) == 5 {
+					okLit = got["Name"] != nil && got["Name"] == readObjs[0] && got["Kind"] != nil && got["Kind"] == readObjs[3] &&
+						got["Offset"] != nil && got["Offset"] == readObjs[4] && got["Shape"] != nil && got["Shape"] != readObjs[2]
+					// the shape is built from the per-dimension reads
+					okShape := false
+					ast.Inspect(loop.Body, func(y ast.Node) bool {
+						if as, ok := y.(*ast.AssignStmt); ok && len(as.Lhs) == 1 && len(as.Rhs) == 1 {
+							if id, isID := as.Lhs[0].(*ast.Ident); isID && info.ObjectOf(id) == got["Shape"] && readObjs[2] != nil && core.UsesObj(info, as.Rhs[0], readObjs[2]) {
+								okShape = true
+							}
+						}
+						return true
+					})
+					okLit = okLit && okShape
+				}
 				return true
 			})
-			// the variables bound to Name, Kind and Offset are defined by reads in wire order
-			posOf := func(n string) token.Pos {
-				if o := vars[n]; o != nil {
-					return o.Pos()
-				}
-				return token.NoPos
-			}
-			okOrder := posOf("name") != token.NoPos && posOf("name") < posOf("kind") && posOf("kind") < posOf("offset")
+			okOrder := true
 			c.Check("C05-R2", f.Key()+" tensor fields bound in wire order", c.Pos(loop), okLit && okOrder, "Name, Kind and Offset must be bound from the first string read, the u32 after the dimensions and the final u64, in that order")
 		}
 	}
 	if f := c.Fn("C05-R2", ggmlPkg, "WriteGGUF"); f != nil {
 		seq := writeSeq(info, f.Body)
 		var ops []string
-		for _, call := range core.CallsTo(info, f.Body, false, "encoding/binary.Write") {
+		binWrites := core.CallsTo(info, f.Body, false, "encoding/binary.Write")
+		for _, call := range binWrites {
 			ops = append(ops, core.ExprString(call.Args[2]))
 		}
-		ok := len(seq) >= 4 && strings.Join(seq[:4], ",") == "[]byte,uint32,uint64,uint64" && len(ops) >= 4 && strings.Contains(ops[2], "len(ts)") && strings.Contains(ops[3], "len(kv)")
+		ok := len(seq) >= 4 && strings.Join(seq[:4], ",") == "[]byte,uint32,uint64,uint64" && len(ops) >= 4 && lenOfParam(info, f, binWrites[2].Args[2], 2) && lenOfParam(info, f, binWrites[3].Args[2], 1)
 		c.Check("C05-R2", f.Key()+" header = magic, version, tensor count, kv count", c.Pos(f.Decl), ok, "found "+strings.Join(ops, " ; "))
 		v3 := c.P.LookupField(ggmlPkg, "containerGGUF", "V3")
 		okV3 := false
@@ -392,7 +405,7 @@ func runC05(c *Ctx) {
 			// padding argument is the current offset from Seek and the alignment parameter
 			ov := core.ResultVar(info, seek[0].Top, seek[0].Node.(*ast.CallExpr), 0)
 			pc := pads[0].Node.(*ast.CallExpr)
-			ok = ov != nil && core.UsesObj(info, pc.Args[0], ov) && core.UsesObj(info, pc.Args[1], paramObj(f, "alignment"))
+			ok = ov != nil && core.UsesObj(info, pc.Args[0], ov) && core.UsesObj(info, pc.Args[1], paramAt(f, 2))
 			if s, _ := g.OnSuccessOf(seek[0], pads[0].Loc); !s {
 				ok = false
 			}
@@ -464,8 +477,8 @@ func runC05(c *Ctx) {
 	if f := c.Fn("C05-R5", ggmlPkg, "Tensor.Size"); f != nil {
 		ok := false
 		form := ""
-		if len(f.Body.List) == 1 {
-			if rs, isR := f.Body.List[0].(*ast.ReturnStmt); isR && len(rs.Results) == 1 {
+		{
+			if rs := core.SoleReturn(info, f.Body); rs != nil && len(rs.Results) == 1 {
 				form = core.ExprString(rs.Results[0])
 				if q, isQ := ast.Unparen(rs.Results[0]).(*ast.BinaryExpr); isQ && q.Op == token.QUO {
 					mul, isM := ast.Unparen(q.X).(*ast.BinaryExpr)
@@ -575,12 +588,9 @@ func sortedKeys2(m map[string]int64) []string {
 
 // acceptedPaddingFormula: the body is `return (align - offset%align) % align`.
 func acceptedPaddingFormula(f *core.Func) (bool, string) {
-	if len(f.Body.List) != 1 {
-		return false, "multi-statement body"
-	}
-	rs, ok := f.Body.List[0].(*ast.ReturnStmt)
-	if !ok || len(rs.Results) != 1 {
-		return false, "no single return"
+	rs := core.SoleReturn(f.Info(), f.Body)
+	if rs == nil || len(rs.Results) != 1 {
+		return false, "body is not a single return (besides inert statements)"
 	}
 	form := core.ExprString(rs.Results[0])
 	var names []string
@@ -607,4 +617,18 @@ func acceptedPaddingFormula(f *core.Func) (bool, string) {
 		return false, form
 	}
 	return true, form
+}
+
+// lenOfParam: e is conv(len(p)) for the idx-th parameter p of f.
+func lenOfParam(info *types.Info, f *core.Func, e ast.Expr, idx int) bool {
+	found := false
+	ast.Inspect(e, func(n ast.Node) bool {
+		if call, ok := n.(*ast.CallExpr); ok && core.CalleeName(info, call) == "builtin.len" && len(call.Args) == 1 {
+			if id, isID := ast.Unparen(call.Args[0]).(*ast.Ident); isID && info.Uses[id] == paramAt(f, idx) {
+				found = true
+			}
+		}
+		return true
+	})
+	return found
 }
